@@ -119,7 +119,85 @@ theorem load_wf (base : Cfg) (l : List (String × Cfg)) (hb : WF base)
     exact ih _ (merge_wf _ _ hb (hl' f List.mem_cons_self))
       (fun g hg => hl' g (List.mem_cons_of_mem _ hg))
 
+/-! ## The alphabetically last fragment is merged last -/
+
+theorem insertByName_last (x : String × Cfg) (l : List (String × Cfg)) (h : ∀ y ∈ l, ¬ x.1 ≤ y.1) :
+    insertByName x l = l ++ [x] := by
+  induction l with
+  | nil => rfl
+  | cons y ys ih =>
+    simp only [insertByName, h y List.mem_cons_self, if_false, List.cons_append]
+    rw [ih (fun z hz => h z (List.mem_cons_of_mem _ hz))]
+
+/-- **later fragments win**: a fragment whose name comes strictly after every other name is merged after all the others,
+wherever the file system lists it — `load_conf` of the whole directory is `load_conf` of the other fragments, updated by it -/
+theorem load_last_fragment (base : Cfg) (x : String × Cfg) (l : List (String × Cfg))
+    (h : ∀ y ∈ l, ¬ x.1 ≤ y.1) : loadConf base (x :: l) = merge (loadConf base l) x.2 := by
+  unfold loadConf
+  have hs : sortByName (x :: l) = sortByName l ++ [x] := by
+    show insertByName x (sortByName l) = _
+    exact insertByName_last x _ (fun y hy => h y ((sortByName_perm l).subset hy))
+  rw [hs, List.foldl_append]; rfl
+
+/-- the same, for any position of that fragment in the listing (distinct file names) -/
+theorem load_last_fragment_anywhere (base : Cfg) (x : String × Cfg) (l listing : List (String × Cfg))
+    (hp : listing.Perm (x :: l)) (hnd : (listing.map (·.1)).Nodup) (h : ∀ y ∈ l, ¬ x.1 ≤ y.1) :
+    loadConf base listing = merge (loadConf base l) x.2 := by
+  rw [load_order_independent base listing (x :: l) hp hnd, load_last_fragment base x l h]
+
+/-- a configuration made of mappings stays a mapping -/
+theorem load_is_node (b : KVs) (l : List (String × Cfg)) (hl : ∀ f ∈ l, ∃ t, f.2 = .node t) :
+    ∃ b', loadConf (.node b) l = .node b' := by
+  unfold loadConf
+  have hl' : ∀ f ∈ sortByName l, ∃ t, f.2 = .node t := fun f hf => hl f ((sortByName_perm l).subset hf)
+  generalize sortByName l = s at hl'
+  induction s generalizing b with
+  | nil => exact ⟨b, rfl⟩
+  | cons f fs ih =>
+    obtain ⟨t, ht⟩ := hl' f List.mem_cons_self
+    simp only [List.foldl_cons, ht, merge, combine_node_node]
+    exact ih _ (fun g hg => hl' g (List.mem_cons_of_mem _ hg))
+
+/-- **key by key**: a scalar (a string, a number, `null`) set by the alphabetically last fragment is the value of that key in
+the loaded configuration, whatever the base file and the earlier fragments hold under it (a mapping included) -/
+theorem load_last_fragment_leaf_wins (b : KVs) (name : String) (t : KVs) (l : List (String × Cfg))
+    (hl : ∀ f ∈ l, ∃ t', f.2 = .node t') (h : ∀ y ∈ l, ¬ name ≤ y.1) (ht : (t.map (·.1)).Nodup) (k s : String)
+    (hk : get? (.node t) k = some (.leaf s)) :
+    get? (loadConf (.node b) ((name, .node t) :: l)) k = some (.leaf s) := by
+  rw [load_last_fragment (.node b) (name, .node t) l h]
+  obtain ⟨b', hb'⟩ := load_is_node b l hl
+  rw [hb']
+  exact merge_leaf_wins b' t ht k s hk
+
+/-- keys the last fragment does not mention keep the value the earlier files gave them -/
+theorem load_last_fragment_keeps_untouched (b : KVs) (name : String) (t : KVs) (l : List (String × Cfg))
+    (hl : ∀ f ∈ l, ∃ t', f.2 = .node t') (h : ∀ y ∈ l, ¬ name ≤ y.1) (k : String) (hk : get? (.node t) k = none) :
+    get? (loadConf (.node b) ((name, .node t) :: l)) k = get? (loadConf (.node b) l) k := by
+  rw [load_last_fragment (.node b) (name, .node t) l h]
+  obtain ⟨b', hb'⟩ := load_is_node b l hl
+  rw [hb']
+  exact merge_keeps_untouched b' t k hk
+
+/-- no fragments: the base file alone -/
+theorem load_no_fragment (base : Cfg) : loadConf base [] = base := rfl
+
+/-- **the merge is not associative**: updating by `b` then by `c` differs from updating by (`b` updated by `c`) when a scalar
+sits between two mappings — which is why `load_conf` must fold the fragments from the left, in order, as the model does -/
+theorem merge_not_associative :
+    ∃ a b c : Cfg, WF a ∧ WF b ∧ WF c ∧ merge (merge a b) c ≠ merge a (merge b c) := by
+  refine ⟨.node [("k", .node [("x", .leaf "1")])], .node [("k", .leaf "s")], .node [("k", .node [("y", .leaf "2")])], ?_, ?_, ?_, ?_⟩
+  · simp [wf_node_iff]
+  · simp [wf_node_iff]
+  · simp [wf_node_iff]
+  · simp [merge, combine, mergeKVs, upsert]
+
 /-! ## Non-vacuity: the hypotheses are satisfiable and the laws say something on real trees -/
+
+/-- `null` in a later fragment over a mapping of the base file (the leaf `~` is YAML's null) -/
+example :
+    get? (loadConf (.node [("backwall", .node [("z", .leaf "0.03")])])
+      [("30_no_backwall", .node [("backwall", .leaf "~")]), ("10_a", .node [("a", .leaf "1")])]) "backwall" = some (.leaf "~") :=
+  load_last_fragment_leaf_wins _ _ _ _ (by simp) (by decide) (by simp) _ _ (by simp [get?, lookup])
 
 example :
     merge (.node [("a", .leaf "1"), ("sub", .node [("x", .leaf "p"), ("y", .leaf "q")])])
